@@ -1,7 +1,7 @@
 //! suiron_harness: runs the real suiron implementation on generated inputs and prints
 //! CASE / IMPL / ORACLE / STAT lines (see out.rs).  Usage:
 //!   suiron_harness <suite> --props C06,C07 --seed N --n N [--exhaustive] [--shard i/n] [--anon] [--func]
-mod prng; mod codec; mod gen; mod refuni; mod refarith; mod out; mod capture; mod suite_unify; mod suite_engine; mod suite_builtins;
+mod prng; mod codec; mod gen; mod refuni; mod refarith; mod out; mod capture; mod suite_unify; mod suite_engine; mod suite_builtins; mod suite_misc;
 
 use out::Out;
 
@@ -56,6 +56,7 @@ fn main() {
                 if let Some(body) = arg_val(&args, "--replay-case") {
                     match suite_engine::dec_case(&body) { Some(c) => suite_engine::emit(&mut out, &cfg, &c), None => { eprintln!("cannot decode case"); std::process::exit(2); } }
                 }
+                else if has(&args, "--alpha") { suite_engine::run_c11(&mut out, &cfg, &w, seed, n); }
                 else if has(&args, "--exhaustive") { suite_engine::run_exhaustive(&mut out, &cfg, shard, nshards); }
                 else { suite_engine::run_random(&mut out, &cfg, &w, seed, n); }
             },
@@ -74,6 +75,28 @@ fn main() {
                         _ => { eprintln!("unknown kind"); std::process::exit(2); },
                     }
                 }
+            },
+            "rename" => {
+                let cfg = suite_engine::Cfg{props};
+                if let Some(body) = arg_val(&args, "--replay-case") {
+                    let toks: Vec<&str> = body.split_whitespace().collect();
+                    let c: usize = toks[1].parse().unwrap(); let mut i = 2;
+                    let rule = codec::dec_rule(&toks, &mut i).unwrap();
+                    suite_misc::emit_rename(&mut out, &cfg, &rule, c);
+                }
+                else if has(&args, "--exhaustive") { suite_misc::run_rename_exhaustive(&mut out, &cfg); }
+                else { suite_misc::run_rename(&mut out, &cfg, seed, n); }
+            },
+            "lists" => {
+                let cfg = suite_engine::Cfg{props};
+                if let Some(body) = arg_val(&args, "--replay-case") {
+                    let toks: Vec<&str> = body.split_whitespace().collect();
+                    let proper = toks[0] == "mkproper"; let vbar = toks[1] == "1"; let k: usize = toks[2].parse().unwrap();
+                    let mut i = 3; let mut ts = vec![]; for _ in 0..k { ts.push(codec::dec_term(&toks, &mut i).unwrap()); }
+                    suite_misc::emit_mklist(&mut out, &cfg, vbar, &ts, proper);
+                }
+                else if has(&args, "--exhaustive") { suite_misc::run_lists_exhaustive(&mut out, &cfg); }
+                else { suite_misc::run_lists(&mut out, &cfg, seed, n); }
             },
             _ => { eprintln!("unknown suite {}", suite); std::process::exit(2); },
         }
